@@ -5,7 +5,8 @@
      load_policy_line_classify : LoadPolicyLine = classify + duplicate skipping
      add_all_firsts / firsts_filter / firsts_split : the list algebra of duplicate skipping
      rule_key_inj       : strings.Join(rule, comma) is injective on non-empty comma-free rules
-     load_line_missing_type : the line ",a" is an error in every model (F13) *)
+     load_line_missing_type : the line ",a" is an error in every model (F13)
+     read_record_print_line : what SavePolicy prints for a rule of safe fields reads back as that rule *)
 From Coq Require Import List String Ascii Bool Arith Lia.
 From Casbin Require Import Csv.
 Import ListNotations.
@@ -583,4 +584,187 @@ Proof.
     induction Hps as [|p ps Hp _ IH]; simpl; constructor; auto.
     apply trim_left_has_char. exact Hp.
   - exists p0, ps. auto.
+Qed.
+
+(* ---------- print, then parse (for the save / load round trip of C10) ---------- *)
+Lemma rev_onto_length s acc : String.length (rev_onto s acc) = String.length s + String.length acc.
+Proof. revert acc. induction s as [|a s IH]; intros acc; simpl; [reflexivity|]. rewrite IH. simpl. lia. Qed.
+
+Lemma rev_str_length s : String.length (rev_str s) = String.length s.
+Proof. unfold rev_str. rewrite rev_onto_length. simpl. lia. Qed.
+
+Lemma sapp_assoc (a b c : string) : (a ++ b) ++ c = a ++ (b ++ c).
+Proof. induction a as [|x a IH]; simpl; [reflexivity|]. rewrite IH. reflexivity. Qed.
+
+Lemma sapp_nil_r (a : string) : a ++ "" = a.
+Proof. induction a as [|x a IH]; simpl; [reflexivity|]. rewrite IH. reflexivity. Qed.
+
+Lemma rev_onto_app s acc : rev_onto s acc = rev_str s ++ acc.
+Proof.
+  unfold rev_str. revert acc. induction s as [|a s IH]; intros acc; simpl; [reflexivity|].
+  rewrite IH, (IH (String a "")). rewrite sapp_assoc. reflexivity.
+Qed.
+
+Lemma rev_str_cons_aux a s : rev_str (String a s) = rev_str s ++ String a "".
+Proof. unfold rev_str at 1. simpl. apply rev_onto_app. Qed.
+
+Lemma rev_str_app a b : rev_str (a ++ b) = rev_str b ++ rev_str a.
+Proof.
+  induction a as [|x a IH]; simpl.
+  - rewrite sapp_nil_r. reflexivity.
+  - rewrite !rev_str_cons_aux, IH, sapp_assoc. reflexivity.
+Qed.
+
+Lemma rev_str_cons a s : rev_str (String a s) = rev_str s ++ String a "".
+Proof. unfold rev_str at 1. simpl. apply rev_onto_app. Qed.
+
+Lemma ends_with_rev c s : ends_with c s = starts_with c (rev_str s).
+Proof.
+  induction s as [|a s IH]; [reflexivity|].
+  rewrite rev_str_cons. destruct s as [|b s]; [reflexivity|].
+  change (ends_with c (String a (String b s))) with (ends_with c (String b s)). rewrite IH.
+  destruct (rev_str (String b s)) as [|x t] eqn:E; [|reflexivity].
+  pose proof (rev_str_length (String b s)) as L. rewrite E in L. simpl in L. lia.
+Qed.
+
+Lemma trim_left_rev_length s : String.length (trim_left_rev s) <= String.length s.
+Proof.
+  assert (G : forall n s, String.length s <= n -> String.length (trim_left_rev s) <= String.length s).
+  { induction n as [|n IH]; intros s0 Hl.
+    - destruct s0; simpl in *; lia.
+    - destruct s0 as [|a [|b [|c r]]]; simpl in *; try lia.
+      + destruct (is_sp1 a); simpl; lia.
+      + destruct (is_sp1 a); [destruct (is_sp1 b); simpl; lia|]. destruct (is_sp2 b a); simpl; lia.
+      + destruct (is_sp1 a).
+        * specialize (IH (String b (String c r))). simpl in IH. specialize (IH ltac:(lia)). lia.
+        * destruct (is_sp2 b a).
+          -- specialize (IH (String c r)). simpl in IH. specialize (IH ltac:(lia)). lia.
+          -- destruct (is_sp3 c b a); [|simpl; lia]. specialize (IH r ltac:(lia)). lia. }
+  apply (G (String.length s)). lia.
+Qed.
+
+(* a string that TrimSpace leaves alone does not end in a one-byte blank *)
+Lemma trim_right_fix_last s a : trim_right s = s -> ends_with a s = true -> is_sp1 a = false.
+Proof.
+  intros T E. destruct (is_sp1 a) eqn:S; [|reflexivity]. exfalso.
+  rewrite ends_with_rev in E. unfold trim_right in T.
+  destruct (rev_str s) as [|x t] eqn:R; [discriminate E|].
+  simpl in E. apply Ascii.eqb_eq in E. subst x.
+  assert (L : String.length (trim_left_rev (String a t)) <= String.length t).
+  { simpl. rewrite S. apply trim_left_rev_length. }
+  pose proof (rev_str_length (trim_left_rev (String a t))) as L1.
+  pose proof (rev_str_length s) as L2. rewrite R in L2. rewrite T in L1. simpl in L2. lia.
+Qed.
+
+Lemma split_comma_app p r : has_char c_comma p = false ->
+  split_comma (p ++ String c_comma r) = p :: split_comma r.
+Proof.
+  unfold split_comma. induction p as [|a p IH]; intros H; simpl.
+  - try rewrite Ascii.eqb_refl. reflexivity.
+  - simpl in H. apply orb_false_iff in H. destruct H as [Ha Hp]. rewrite Ha, (IH Hp). reflexivity.
+Qed.
+
+Lemma split_comma_one p : has_char c_comma p = false -> split_comma p = [p].
+Proof.
+  unfold split_comma. induction p as [|a p IH]; intros H; simpl; [reflexivity|].
+  simpl in H. apply orb_false_iff in H. destruct H as [Ha Hp]. rewrite Ha, (IH Hp). reflexivity.
+Qed.
+
+Lemma safe_field_parts f : safe_field f = true ->
+  has_char c_comma f = false /\ has_char c_quote f = false /\ trim f = f.
+Proof.
+  unfold safe_field. intros H. repeat (apply andb_true_iff in H; destruct H as [H ?]).
+  apply negb_true_iff in H. apply negb_true_iff in H1. apply String.eqb_eq in H0. auto.
+Qed.
+
+Lemma trim_fix_left f : trim f = f -> trim_left f = f.
+Proof.
+  unfold trim, trim_right. intros H.
+  assert (L : String.length (trim_left f) = String.length f).
+  { pose proof (trim_left_length f). pose proof (trim_left_rev_length (rev_str (trim_left f))).
+    pose proof (rev_str_length (trim_left_rev (rev_str (trim_left f)))).
+    pose proof (rev_str_length (trim_left f)). rewrite H in H2. lia. }
+  revert L. apply (trim_left_rect (fun s t => String.length t = String.length s -> t = s)).
+  - intros a r _ _ L. pose proof (trim_left_length r). simpl in L. lia.
+  - intros a b r _ _ _ L. pose proof (trim_left_length r). simpl in L. lia.
+  - intros a b c0 r _ _ _ _ L. pose proof (trim_left_length r). simpl in L. lia.
+  - reflexivity.
+Qed.
+
+Lemma trim_fix_right f : trim f = f -> trim_right f = f.
+Proof. intros H. pose proof (trim_fix_left f H) as L. unfold trim in H. rewrite L in H. exact H. Qed.
+
+Lemma trim_left_space f : trim_left (String c_sp f) = trim_left f.
+Proof. reflexivity. Qed.
+
+(* the pieces of ", f1, f2, ..." *)
+Lemma split_comma_tail r : Forall (fun f => has_char c_comma f = false) r -> r <> [] ->
+  map trim_left (split_comma (String c_sp (String.concat ", " r))) = map trim_left r.
+Proof.
+  induction r as [|f [|g t] IH]; intros F N; [congruence| |].
+  - inversion F; subst. simpl String.concat.
+    rewrite (split_comma_one (String c_sp f)); [reflexivity|]. simpl. assumption.
+  - inversion F as [|? ? Hf F']; subst.
+    change (String.concat ", " (f :: g :: t)) with (f ++ String c_comma (String c_sp (String.concat ", " (g :: t)))).
+    change (String c_sp (f ++ String c_comma (String c_sp (String.concat ", " (g :: t)))))
+      with (String c_sp f ++ String c_comma (String c_sp (String.concat ", " (g :: t)))).
+    rewrite split_comma_app by (simpl; exact Hf).
+    cbn [map]. rewrite IH by (auto; discriminate). reflexivity.
+Qed.
+
+Lemma ends_with_app c a b : b <> "" -> ends_with c (a ++ b) = ends_with c b.
+Proof.
+  intros N. induction a as [|x a IH]; [reflexivity|].
+  simpl. destruct (a ++ b) as [|y t] eqn:E; [|exact IH].
+  destruct a; simpl in E; [congruence|discriminate].
+Qed.
+
+(* what SavePolicy prints for a rule of safe fields, LoadPolicyLine reads back *)
+Lemma read_record_print_line key r :
+  safe_field key = true -> key <> "" -> starts_with c_hash key = false ->
+  forallb safe_field r = true -> r <> [] ->
+  read_record (print_line key r) = Ok (key :: r).
+Proof.
+  intros Hk Nk Hh Hr Nr. destruct (safe_field_parts key Hk) as [Kc [Kq Kt]].
+  assert (Fr : Forall (fun f => has_char c_comma f = false /\ has_char c_quote f = false /\ trim f = f) r).
+  { rewrite forallb_forall in Hr. apply Forall_forall. intros f Hf. apply safe_field_parts. auto. }
+  unfold print_line.
+  change (key ++ ", " ++ String.concat ", " r)
+    with (key ++ String c_comma (String c_sp (String.concat ", " r))).
+  set (tail := String c_sp (String.concat ", " r)).
+  (* no quote *)
+  assert (Tq : has_char c_quote tail = false).
+  { unfold tail. clear - Fr. simpl. induction Fr as [|f [|g t] [_ [Hq _]] _ IH]; simpl; auto.
+    change (String.concat ", " (f :: g :: t)) with (f ++ String c_comma (String c_sp (String.concat ", " (g :: t)))).
+    rewrite has_char_app, Hq. simpl. exact IH. }
+  (* no CR at the end *)
+  assert (Tcr : ends_with c_cr tail = false).
+  { unfold tail. clear - Fr Nr. induction Fr as [|f [|g t] [_ [_ Ht]] Fr' IH]; [congruence| |].
+    - simpl String.concat. destruct f as [|a f']; [reflexivity|].
+      change (String c_sp (String a f')) with (String c_sp "" ++ String a f').
+      rewrite ends_with_app by discriminate.
+      destruct (ends_with c_cr (String a f')) eqn:E; [|reflexivity].
+      pose proof (trim_right_fix_last _ c_cr (trim_fix_right _ Ht) E) as X. discriminate X.
+    - change (String.concat ", " (f :: g :: t)) with (f ++ String c_comma (String c_sp (String.concat ", " (g :: t)))).
+      replace (String c_sp (f ++ String c_comma (String c_sp (String.concat ", " (g :: t)))))
+        with ((String c_sp f ++ String c_comma "") ++ String c_sp (String.concat ", " (g :: t)))
+        by (rewrite sapp_assoc; reflexivity).
+      rewrite ends_with_app by discriminate. apply IH. discriminate. }
+  unfold read_record.
+  destruct (key ++ String c_comma tail) as [|a0 l0] eqn:EL.
+  { destruct key; [congruence|discriminate]. }
+  rewrite <- EL.
+  replace (ends_with c_cr (key ++ String c_comma tail)) with false
+    by (symmetry; change (key ++ String c_comma tail) with (key ++ (String c_comma "" ++ tail));
+        rewrite <- sapp_assoc, ends_with_app; [exact Tcr|unfold tail; discriminate]).
+  replace (starts_with c_hash (key ++ String c_comma tail)) with false
+    by (destruct key; [congruence|exact (eq_sym Hh)]).
+  rewrite EL, <- EL.
+  rewrite fields_noquote; [|lia|rewrite has_char_app, Kq; simpl; exact Tq].
+  rewrite split_comma_app by exact Kc. cbn [map].
+  rewrite (trim_fix_left key Kt). f_equal. f_equal.
+  unfold tail. rewrite split_comma_tail; auto.
+  - clear - Fr. induction Fr as [|f t [_ [_ Ht]] _ IH]; simpl; [reflexivity|].
+    rewrite (trim_fix_left f Ht), IH. reflexivity.
+  - clear - Fr. induction Fr as [|f t [Hc _] _ IH]; constructor; auto.
 Qed.
